@@ -22,6 +22,7 @@ FAMILIES = {
     'runpretty': 'pvf.contracts.runpretty',
     'strings': 'pvf.contracts.strings',
     'normalize': 'pvf.contracts.layout_norm',
+    'context': 'pvf.contracts.context',
 }
 
 
@@ -166,6 +167,13 @@ def verify_family(famname, fuel=2, timeout=10000, jobs=None, only=None, refute_f
                 if meta.get(f) and not m0.get(f):
                     m0[f] = meta[f]
     out = [merged[k] for k in order]
+    # cross-checks of the declarations against the source (2.4): a mismatch makes the family undecided, not violated
+    mod = importlib.import_module(FAMILIES.get(famname, famname))
+    for fn in getattr(mod, 'PRECHECKS', []):
+        ok, detail = fn()
+        if not ok:
+            out.append((dict(kind='precheck', key=fn.__name__, paths=0, source_hash=None, lines=None, wall_s=0,
+                             outside='declaration does not match the source: %s' % (detail,)), []))
     trusted = [dict(kind='lemma', name=l.name, note=l.note) for l in cset.lemmas if l.trusted] + \
               [dict(kind='function', name=k, note=c.note) for k, c in cset.fns.items() if c.trusted]
     return dict(family=famname, units=out, trusted=trusted, assumptions=list(cset.assumptions))
